@@ -11,7 +11,8 @@ LEAN_MODULES = ["JSV.Props.C01"]
 RULE = ("the 1099 official 2020-12 cases first (expected verdicts known), then generated 2020-12 documents over the whole "
         "vocabulary with interaction-biased keyword mixes, each with 6 instances from shared pools; an operation is one "
         "(document, instances) pair; 4 %: uniqueItems / const / enum over containers of strings that differ but concatenate to the same "
-        "character stream (pair followed by a duplicate of either member); non-trivial: the document has >= 2 keywords and the verdict vector is not constant or a "
+        "character stream (pair followed by a duplicate of either member); 3 %: $refs into 2..3 distinct resources (embedded / Loader) whose URIs "
+        "differ only by a trailing slash, an empty path segment or one percent-encoded character, expected verdicts by construction; non-trivial: the document has >= 2 keywords and the verdict vector is not constant or a "
         "reference is present; distinct = distinct operation text")
 TRUSTED = ["regular expressions: a parameter of the model; the driver's matcher is compared with Go's regexp on the pattern pool",
            "float64 arithmetic of multipleOf: exact on the generated domain (short dyadics)"]
@@ -119,6 +120,13 @@ def gen(rng, tier, n):
             continue
         if r < 0.45:
             ops.append(lookalike_case(rng))
+            continue
+        if r < 0.48:
+            # references across resources whose URIs are near twins (trailing slash, empty segment, one character percent-encoded):
+            # validity of an instance is decided by the resource each $ref designates (expected verdicts by construction)
+            from .. import gen_refs
+            args, meta = gen_refs.twin_universe(rng, "2020")
+            ops.append({"op": "validate", "args": args, "meta": meta})
             continue
         c = gs.Ctx(rng, "2020", depth=rng.choice([1, 2, depth]))
         doc = gs.gen_document(c, gs.D2020_URI if rng.random() < 0.3 else None)
